@@ -556,6 +556,34 @@ REUSE = ("same", "assign", "inplace", "copy_update", "deep_copy_update")
 HISTORY = history.history_op("history", BASE, _build, _call, _canon, snapshot=_snapshot, modify=_modify, poison=_poison)
 
 
+def fresh_modules():
+    """Every history starts from freshly initialised converter modules (re-executed in place, as in a new
+    interpreter), so that what one history leaves behind at module level (a cache, a shared default) cannot make
+    a *later* history fail: a failing history is then a self-contained replay."""
+    import importlib
+    import sys
+    try:
+        for m in ("labels", "segment", "bbox", "sequence", "annotation"):
+            mod = sys.modules.get("soundevent.io.crowsetta." + m)
+            if mod is not None:
+                importlib.reload(mod)
+        pkg = sys.modules.get("soundevent.io.crowsetta")
+        if pkg is not None:
+            importlib.reload(pkg)
+    except Exception:  # noqa: BLE001 - no isolation then; the fresh-process confirmation still applies
+        pass
+
+
+def _isolated(impl):
+    def run(inp):
+        fresh_modules()
+        return impl(inp)
+    return run
+
+
+HISTORY.impl = _isolated(HISTORY.impl)
+
+
 # ====================================================================== tag histories (store semantics in Lean)
 KINDS = ("label_to_tags", "segment", "bbox", "sequence", "annotation_seq", "annotation_bbox")
 
@@ -633,7 +661,7 @@ def _cmp_tag_history(inp, io, mo):
     return "tag history: implementation and store model disagree"
 
 
-TAG_HISTORY = Op("tag_history", _impl_tag_history, to_model=_to_model_tag_history, compare=_cmp_tag_history,
+TAG_HISTORY = Op("tag_history", _isolated(_impl_tag_history), to_model=_to_model_tag_history, compare=_cmp_tag_history,
                  nontrivial=lambda inp, out: isinstance(out, dict) and "trace" in out and any("edit" in e for e in inp["events"]))
 
 
@@ -769,3 +797,66 @@ def signature_table():
                    "kwonly": sorted(q.name for q in ps if q.kind == q.KEYWORD_ONLY),
                    "var_kw": any(q.kind == q.VAR_KEYWORD for q in ps)}
     return out
+
+
+# ====================================================================== self-contained replays
+_FRESH = r"""
+import json, sys, warnings
+warnings.filterwarnings("ignore")
+src, verif, name = sys.argv[1:4]
+sys.path.insert(0, verif)
+sys.path.insert(0, src)
+from harness.core import canon_exc
+from harness.props import c10
+inp = json.load(sys.stdin)
+try:
+    out = c10.OPS[name].impl(inp)
+except Exception as e:
+    out = canon_exc(e)
+json.dump(out, sys.stdout, default=str)
+"""
+
+
+def fresh_output(op_name, inp, timeout=120):
+    """the operation's output for `inp` when it is the only thing that ever ran in the interpreter"""
+    import json
+    import os
+    import subprocess
+    import sys
+    from . import leanio
+    src = os.environ.get("SOUNDEVENT_SRC", "/repo/src")
+    p = subprocess.run([sys.executable, "-c", _FRESH, src, leanio.VERIF, op_name], input=json.dumps(inp), text=True,
+                       stdout=subprocess.PIPE, stderr=subprocess.DEVNULL, timeout=timeout, cwd=leanio.VERIF)
+    return json.loads(p.stdout)
+
+
+def keep_self_contained(ctx, op, failures, examine=4, want=2):
+    """A history that fails only because an *earlier* history of this process left something behind (a module-level
+    cache) is not a replay: its input alone does not fail.  Re-run the smallest failing histories alone in a fresh
+    interpreter and, when at least one fails there as well, report those (the others are explained by them)."""
+    fs = sorted([f for f in failures if f.kind == "property"], key=lambda f: f.size())
+    if not fs:
+        return
+    confirmed = []
+    for f in fs[:examine]:
+        try:
+            io = fresh_output(op.name, f.inp)
+            msg = op.holds(ctx, f.inp, io) if op.holds is not None else None
+            if not msg and op.compare is not None and not op.no_model:
+                msg = op.compare(f.inp, io, ctx.model(op.model_op, op.to_model(f.inp)))
+        except Exception as e:  # noqa: BLE001 - no confirmation, keep what we have
+            ctx.note("fresh-process confirmation failed: %r" % (e,))
+            return
+        if msg:
+            f.impl, f.detail = io, msg + " [fails alone in a fresh interpreter]"
+            confirmed.append(f)
+            if len(confirmed) >= want:
+                break
+    if confirmed:
+        drop = {id(f) for f in failures if f.kind == "property"} - {id(f) for f in confirmed}
+        ctx.failures[:] = [f for f in ctx.failures if id(f) not in drop]
+        ctx.note(f"{op.name}: {len(drop)} further failing histories are not listed (they fail through state left behind by, or like, "
+                 "the self-contained ones reported)")
+    else:
+        ctx.note(f"{op.name}: none of the {min(len(fs), examine)} smallest failing histories fails alone in a fresh interpreter - the "
+                 "replays depend on what ran before them in the process")
